@@ -237,6 +237,14 @@ def comments_in_order(ast_file):
     return [x[3] for x in cs]
 
 
+_WS = set([0x85, 0xA0, 0x1680, 0x2028, 0x2029, 0x202F, 0x205F, 0x3000] + list(range(9, 14)) + [32] + list(range(0x2000, 0x200B)))
+
+
+def plain_chars(text):
+    """the characters of a text that are not whitespace (char::is_whitespace), ASCII letters lower-cased"""
+    return "".join(c.lower() if "A" <= c <= "Z" else c for c in text if ord(c) not in _WS)
+
+
 def token_words(ast_file):
     """the leaf texts of a file's tokens in source order, case-folded (keywords, mnemonics and registers are
     case-insensitive; the dump renders them canonically anyway) -- the 'sequence of tokens ignoring whitespace'"""
